@@ -95,21 +95,48 @@ Theorem C19_fit_curve_partial : forall eb f r (eps : Q -> Q),
 Proof. exact fit_curve_lemma. Qed.
 Print Assumptions C19_fit_curve_partial.
 
-(** a histogram's bars are the bin counts that were returned to the caller (same samples, same
-    bins and range for numpy.histogram and for the drawing call); the counts are those of the
-    samples per bin, the heights are the counts, and over ascending edges they sum to the number
-    of samples within [first edge, last edge] *)
+(** histograms with any binning the library forwards: bins (integer / ascending edge sequence of any
+    widths / string rule with numpy's edges as oracle), range, density, weights, cumulative.
+    The bars are computed from the SAME binning of the SAME samples as the values returned to the
+    caller (every one of these keywords reaches both numpy.histogram and the drawing call, except
+    cumulative, which only the drawing call gets): without cumulative the bar heights ARE the
+    returned values; with cumulative they are their running sums (of density * width for
+    densities).  The returned values are the weighted bin contents (sum of the weights of the
+    samples with e_i <= s < e_i+1, last bin closed; weight 1 when none are given, i.e. the plain
+    counts), or contents / width / total when density is on; over ascending edges the plain counts
+    sum to the number of samples within [first edge, last edge] *)
 Theorem C19_hist : forall h,
-  (forall n e, hist_returned h = Some (n, e) -> hist_bars h = Some (bars_of e n)) /\
   (hist_returned h = None -> hist_bars h = None) /\
   forall n e, hist_returned h = Some (n, e) ->
-    hist_edges (hi_samples h) (hi_kw h) = Some e /\ n = hist_counts (hi_samples h) e /\
+    hist_bars h = Some (bars_of e (mpl_heights (hi_kw h) n e)) /\
+    (kw_cumulative (hi_kw h) = false -> mpl_heights (hi_kw h) n e = n) /\
+    (kw_cumulative (hi_kw h) = true ->
+       mpl_heights (hi_kw h) n e = cumsum_from 0 (if kw_density (hi_kw h) then map2 Qmult n (widths e) else n)) /\
+    hist_edges (hi_samples h) (hi_kw h) = Some e /\
+    (let raw := hist_sums (weighted (hi_samples h) (hi_kw h)) e in
+     n = if kw_density (hi_kw h) then densities raw e else raw) /\
+    (kw_weights (hi_kw h) = None ->
+       Forall2 Qeq (hist_sums (weighted (hi_samples h) (hi_kw h)) e) (map Qn (hist_counts (hi_samples h) e))) /\
     (forall e0 rest, e = e0 :: rest -> rest <> [] ->
        List.length n = List.length rest /\
-       map (fun b => snd b) (bars_of e n) = map Qn n /\
-       (ascending e -> sum_nat n = count_if (closed e0 (last rest e0)) (hi_samples h))).
+       map (fun b => snd b) (bars_of e (mpl_heights (hi_kw h) n e)) = mpl_heights (hi_kw h) n e /\
+       map (fun b => fst (fst b)) (bars_of e (mpl_heights (hi_kw h) n e)) = removelast e /\
+       (ascending e ->
+          sum_nat (hist_counts (hi_samples h) e) = count_if (closed e0 (last rest e0)) (hi_samples h))).
 Proof. exact hist_lemma. Qed.
 Print Assumptions C19_hist.
+
+(** density=True: the densities integrate to one (bins of non-zero width, non-zero total) *)
+Theorem C19_hist_density : forall raw e0 rest, ~ qsum raw == 0 ->
+  Forall (fun w => ~ w == 0) (widths (e0 :: rest)) -> List.length raw = List.length rest ->
+  qsum (map2 Qmult (densities raw (e0 :: rest)) (widths (e0 :: rest))) == 1.
+Proof. exact densities_integrate. Qed.
+Print Assumptions C19_hist_density.
+
+(** cumulative=True: the last bar is the total of what is accumulated *)
+Theorem C19_hist_cumulative : forall l a d, l <> [] -> last (cumsum_from a l) d == a + qsum l.
+Proof. exact cumsum_last. Qed.
+Print Assumptions C19_hist_cumulative.
 
 (** equal-width bins over a range low <= high are ascending, so the sum law applies to them *)
 Theorem C19_hist_equal_width : forall k lo hi, lo <= hi -> ascending (linspace (S k) lo hi).
@@ -165,19 +192,36 @@ Example C19_nonvacuous :
   let f := {| fo_f := fun x => (2 * x, 1); fo_spec := false; fo_range := None;
               fo_xname := []; fo_yname := []; fo_xunit := []; fo_yunit := []; fo_label := [] |} in
   let h := {| hi_samples := [0; 1; 1; 5; 6; 9];
-              hi_kw := {| kw_bins := Some (BInt 3); kw_range := Some (0, 6); kw_label := None |} |} in
+              hi_kw := {| kw_bins := Some (BInt 3); kw_range := Some (0, 6); kw_label := None;
+                           kw_density := false; kw_weights := None; kw_cumulative := false |} |} in
   let cfg := {| s_errorbar := true; s_residuals := false; s_legend := false; s_xrange := None; s_title := [];
                 s_xname := []; s_yname := []; s_xunit := []; s_yunit := [] |} in
   wf_dataset d /\
   do_xvalues o = [2; 3] /\ do_yerr o = [1; 0] /\
   plot_domain cfg [OData o; OFunc f; OHist h] = Some (0, 6) /\
-  hist_returned h = Some ([3; 0; 2]%nat, [0 + 0 * (6 - 0) / 3; 0 + 1 * (6 - 0) / 3; 0 + 2 * (6 - 0) / 3; 0 + 3 * (6 - 0) / 3]) /\
+  hist_returned h = Some ([1 + (1 + (1 + 0)); 0; 1 + (1 + 0)], [0 + 0 * (6 - 0) / 3; 0 + 1 * (6 - 0) / 3; 0 + 2 * (6 - 0) / 3; 0 + 3 * (6 - 0) / 3]) /\
   (exists ds, render cfg [OData o; OFunc f; OHist h] = Rendered ds /\ List.length ds = 3%nat) /\
   xlabel cfg [OData o; OFunc f; OHist h] = [116%N; 91%N; 115%N; 93%N].
 Proof.
   cbv zeta. split; [repeat split|]. split; [reflexivity|]. split; [reflexivity|].
   split; [vm_compute; reflexivity|]. split; [vm_compute; reflexivity|].
   split; [eexists; split; [vm_compute; reflexivity|reflexivity]|]. vm_compute. reflexivity.
+Qed.
+
+(** non-vacuity for the histogram keywords: unequal bin widths with density, weights and cumulative;
+    the drawn heights are the returned densities, resp. their running integral *)
+Example C19_hist_nonvacuous :
+  let kw c := {| kw_bins := Some (BSeq [0; 1; 3; 4]); kw_range := None; kw_label := None;
+                 kw_density := true; kw_weights := Some [1; 2; 1; 4]; kw_cumulative := c |} in
+  let h c := {| hi_samples := [0; 1; 2; 4]; hi_kw := kw c |} in
+  (exists n e, hist_returned (h false) = Some (n, e) /\ Forall2 Qeq n [1 # 8; 3 # 16; 1 # 2] /\
+               hist_bars (h false) = Some (bars_of e n)) /\
+  (exists bars, hist_bars (h true) = Some bars /\ Forall2 Qeq (map (fun b => snd b) bars) [1 # 8; 1 # 2; 1]).
+Proof.
+  cbv zeta. split.
+  - eexists. eexists. split; [vm_compute; reflexivity|]. split; [|vm_compute; reflexivity].
+    repeat constructor.
+  - eexists. split; [vm_compute; reflexivity|]. repeat constructor.
 Qed.
 
 (** histories: after ANY sequence of plot / hist / fit calls, switch, label and x-range changes and
